@@ -275,6 +275,8 @@ def tbin_value(wt, x):
         return struct.pack(">i", len(b)) + b
     if wt == 12:
         return tbin(x)
+    if wt == 16:
+        return bytes.fromhex(x)
     if wt in (14, 15):
         et, vals = x["e" if wt == 14 else "l"]
         return struct.pack(">bi", et, len(vals)) + b"".join(tbin_value(et, v) for v in vals)
@@ -311,7 +313,9 @@ def tcomp(tree, lib=None):
     for fid, wt, x in tree["s"]:
         ct = (1 if x else 2) if wt == 2 else CT[wt]
         d = fid - last
-        if 0 < d <= 15 and not (lib is not None and lib.random() < 0.25):
+        if lib is not None and d < 0 and 0 < d % 65536 <= 15:
+            out.append(((d % 65536) << 4) | ct)      # the reader adds the delta in int16: 32767 + 1 = -32768
+        elif 0 < d <= 15 and not (lib is not None and lib.random() < 0.25):
             out.append((d << 4) | ct)
         else:
             out.append(ct)
@@ -339,6 +343,8 @@ def tcomp_value(wt, x, lib=None):
         return uvarint(len(b), lib) + b
     if wt == 12:
         return tcomp(x, lib)
+    if wt == 16:
+        return bytes.fromhex(x)
     if wt in (14, 15):
         et, vals = x["e" if wt == 14 else "l"]
         n = len(vals)
@@ -608,8 +614,16 @@ def mutate_tree(rng, p, sdef, tree):
                 [fid, 15, {"l": [6, [1, 2, 3]]}], [fid, 14, {"e": [11, ["61", ""]]}],
                 [fid, 13, {"m": [8, 12, [[1, {"s": [[1, 3, 5], [9, 11, "7a"]]}]]]}],
                 [fid, 12, {"s": [[1, 12, {"s": [[2, 15, {"l": [12, [{"s": []}, {"s": [[1, 2, False]]}]]}]]}]]}],
-                [fid, 12, {"s": []}], [fid, 13, {"m": [11, 15, []]}], [fid, 3, -128], [fid, 6, 32767]])
+                [fid, 12, {"s": []}], [fid, 13, {"m": [11, 15, []]}], [fid, 3, -128], [fid, 6, 32767],
+                [fid, 16, "00112233445566778899aabbccddeeff"], [fid, 2, False],
+                [fid, 15, {"l": [2, [True, False, True] * rng.randrange(1, 8)]}],
+                [fid, 12, {"s": [[1, 2, True], [2, 2, False], [40, 2, True], [41, 15, {"l": [2, [False, True]]}]]}]])
             fields.insert(rng.randrange(0, len(fields) + 1), extra)
+        if rng.random() < 0.15 and 32767 not in declared:
+            # ids at the edge of int16: under compact a short-form header after 32767 wraps to a negative id
+            at = rng.randrange(0, len(fields) + 1)
+            fields[at:at] = [[32767, 8, 7], [-32768 + rng.randrange(0, 15), rng.choice([2, 8]), 1]]
+            info["wrap"] = True
     elif kind == "drop_required":
         req = [f["id"] for f in sdef["fields"] if f["mod"] == "required"]
         if not req:
@@ -649,6 +663,47 @@ def mutate_tree(rng, p, sdef, tree):
             elif hk == "base:i64":
                 fields.append([f["id"], 10, "9"])
     return {"s": fields}, info
+
+
+def stretch_value(rng, p, sdef, v):
+    """a copy of v with one container field grown beyond 14 elements (compact: the header form with a varint size)
+    or one string/binary field beyond 127 bytes (two-byte length varint); None if the type has no such field"""
+    if sdef["kind"] == "union":
+        return None
+    cands = []
+    for f in sdef["fields"]:
+        hk = L.head_kind(p, f["type"])
+        if hk in ("list", "set", "map", "base:string", "base:binary"):
+            cands.append(f)
+    if not cands:
+        return None
+    f = rng.choice(cands)
+    r = L.resolve(p, f["type"])
+    out = dict(v)
+    if r[0] == "string":
+        out[f["id"]] = "".join(rng.choice("abcXYZ019 _-") for _ in range(rng.randrange(128, 400)))
+        return out
+    if r[0] == "binary":
+        out[f["id"]] = bytes(rng.getrandbits(8) for _ in range(rng.randrange(128, 20000 if rng.random() < 0.2 else 400)))
+        return out
+    if L._empty_struct(p, r[1]):
+        return None
+    n = rng.randrange(15, 40)
+    items, seen = [], set()
+    for _ in range(n * 3):
+        if len(items) >= n:
+            break
+        if r[0] == "list":
+            items.append(L.gen_value(rng, p, r[1], 3))
+            continue
+        key = L.gen_value(rng, p, r[1], 3, as_key=True)
+        kk = L.key_of(key)
+        if kk in seen and L.head_kind(p, r[1]) != "struct":
+            continue
+        seen.add(kk)
+        items.append(key if r[0] == "set" else [key, L.gen_value(rng, p, r[2], 3)])
+    out[f["id"]] = items
+    return out
 
 
 def struct_type(fn, sdef):
@@ -708,6 +763,11 @@ def _run_program(ctx, prog, lb, gen_opts, n_values, stats, judge_cases, judge_me
             continue
         for i in range(n_values):
             plan.append((k, fn, s, L.gen_struct_value(rng, p, s)))
+        if n_values and rng.random() < 0.6:
+            sv = stretch_value(rng, p, s, L.gen_struct_value(rng, p, s))
+            if sv is not None:
+                plan.append((k, fn, s, sv))
+                stats["stretched_values"] += 1
         if s["kind"] == "union" and s["fields"]:
             # values the emitted type can hold but the IDL forbids: no field / two fields set (Write must refuse)
             plan.append((k, fn, s, L.new_value(p, s)))
